@@ -3,6 +3,7 @@ package main
 import (
 	"encoding/json"
 	"fmt"
+	"go/token"
 	"go/types"
 	"os"
 	"sort"
@@ -254,6 +255,10 @@ func (c *Ctx) resolveRenames() {
 	if json.Unmarshal(b, &rec) != nil {
 		fatalf("%s is not a valid anchors file", anchorsPath)
 	}
+	c.recorded = map[string]bool{}
+	for n := range rec {
+		c.recorded[n] = true
+	}
 	c.resolveFieldRenames(rec)
 	cur := c.declared()
 	var missing []string
@@ -306,4 +311,36 @@ func (c *Ctx) resolveRenames() {
 			}
 		}
 	}
+}
+
+// freshHelper: an unexported, loop-free function of the package that the reference record does not know and that
+// was not identified as a renamed one — code the change under analysis moved out of its callers.
+func (c *Ctx) freshHelper(g *ssa.Function) bool {
+	if c.recorded == nil || g == nil || g.Blocks == nil || g.Parent() != nil || !c.inRepo(g) {
+		return false
+	}
+	if v, ok := c.freshMemo[g]; ok {
+		return v
+	}
+	if c.freshMemo == nil {
+		c.freshMemo = map[*ssa.Function]bool{}
+	}
+	res := false
+	if _, aliased := c.alias[g]; !aliased && !c.recorded[c.rawName(g)] && !token.IsExported(g.Name()) {
+		res = true
+		n := 0
+		for _, b := range g.Blocks {
+			n += len(b.Instrs)
+			for _, s := range b.Succs {
+				if s.Dominates(b) {
+					res = false // loops are kept as calls
+				}
+			}
+		}
+		if n > 150 {
+			res = false
+		}
+	}
+	c.freshMemo[g] = res
+	return res
 }
